@@ -376,8 +376,7 @@ func (p *Parser) parseAmount() *ast.Amount {
 	}
 	numberStr := rawNumberStr
 
-	numberStr = strings.ReplaceAll(numberStr, " ", "")
-	numberStr = normalizeNumber(numberStr)
+	numberStr = normalizeAmountNumber(numberStr)
 
 	qty, err := decimal.NewFromString(numberStr)
 	if err != nil {
@@ -857,6 +856,26 @@ func toASTPosition(pos Position) ast.Position {
 		Column: pos.Column,
 		Offset: pos.Offset,
 	}
+}
+
+// normalizeAmountNumber turns a number as written in a journal (digit groups,
+// decimal comma, exponent) into the form decimal.NewFromString reads. Only
+// the mantissa takes part in the decimal-mark heuristics of normalizeNumber;
+// and when blanks group the digits, a single remaining mark can only be the
+// decimal mark.
+func normalizeAmountNumber(s string) string {
+	mantissa, exponent := s, ""
+	if i := strings.IndexAny(s, "eE"); i >= 0 {
+		mantissa, exponent = s[:i], s[i:]
+	}
+	spaceGrouped := strings.Contains(mantissa, " ")
+	mantissa = strings.ReplaceAll(mantissa, " ", "")
+	if spaceGrouped && strings.Count(mantissa, ".")+strings.Count(mantissa, ",") == 1 {
+		mantissa = strings.Replace(mantissa, ",", ".", 1)
+	} else {
+		mantissa = normalizeNumber(mantissa)
+	}
+	return mantissa + exponent
 }
 
 func normalizeNumber(s string) string {
